@@ -37,13 +37,21 @@ type dataSource struct {
 	ci     int
 	wd     bool
 	reads  int
+	fail   error // the error delivered at the end of the data (default io.EOF)
+}
+
+func (s *dataSource) endErr() error {
+	if s.fail != nil {
+		return s.fail
+	}
+	return io.EOF
 }
 
 func (s *dataSource) Read(p []byte) (int, error) {
 	s.reads++
 	left := len(s.data) - s.pos
 	if left == 0 {
-		return 0, io.EOF
+		return 0, s.endErr()
 	}
 	m := len(p)
 	if left < m {
@@ -59,7 +67,7 @@ func (s *dataSource) Read(p []byte) (int, error) {
 	copy(p, s.data[s.pos:s.pos+m])
 	s.pos += m
 	if m == left && s.wd {
-		return m, io.EOF
+		return m, s.endErr()
 	}
 	return m, nil
 }
